@@ -1,6 +1,19 @@
 //! The single PRNG every random choice derives from (xorshift64*), seeded from VERIF_SEED.
 pub struct Rng(pub u64);
 
+/// byte-array literals harvested from /repo's current sources by the check (file named by VERIF_CONSTS, one hex
+/// string per line): constants the code itself mentions are values worth trying
+pub fn consts() -> &'static Vec<Vec<u8>> {
+    static C: std::sync::OnceLock<Vec<Vec<u8>>> = std::sync::OnceLock::new();
+    C.get_or_init(|| {
+        let path = match std::env::var("VERIF_CONSTS") { Ok(p) if !p.is_empty() => p, _ => return Vec::new() };
+        let text = std::fs::read_to_string(path).unwrap_or_default();
+        text.lines().filter(|l| !l.is_empty() && l.len() % 2 == 0)
+            .filter_map(|l| (0..l.len() / 2).map(|i| u8::from_str_radix(&l[2 * i..2 * i + 2], 16).ok()).collect::<Option<Vec<u8>>>())
+            .collect()
+    })
+}
+
 impl Rng {
     pub fn new(seed: u64) -> Self {
         let mut r = Rng(seed ^ 0x9E37_79B9_7F4A_7C15);
@@ -65,12 +78,24 @@ impl Rng {
     }
     /// a 16-byte UUID: the nil UUID, all ones and corner bytes over-weighted
     pub fn uuid(&mut self) -> Vec<u8> {
+        let c16: Vec<&Vec<u8>> = consts().iter().filter(|c| c.len() == 16).collect();
+        if !c16.is_empty() && self.chance(1, 6) { return c16[self.below(c16.len() as u64) as usize].clone(); }
         match self.below(8) {
             0 | 1 => vec![0u8; 16],
             2 => vec![0xFFu8; 16],
             3 | 4 => self.cbytes(16),
             _ => self.bytes(16),
         }
+    }
+    /// n random bytes that, one time in ten, begin with a constant from the source
+    pub fn body(&mut self, n: usize) -> Vec<u8> {
+        let mut b = self.bytes(n);
+        let cs = consts();
+        if !cs.is_empty() && self.chance(1, 10) {
+            let c = &cs[self.below(cs.len() as u64) as usize];
+            for (i, x) in c.iter().enumerate() { if i < b.len() { b[i] = *x; } }
+        }
+        b
     }
     pub fn fork(&mut self) -> Rng {
         Rng::new(self.next())
